@@ -22,6 +22,9 @@ type solverSpec struct {
 var solvers = []solverSpec{
 	{name: "z3-new", bin: "z3-new", args: func(f string, s int) []string { return []string{fmt.Sprintf("-T:%d", s), f} }},
 	{name: "z3", bin: "z3", args: func(f string, s int) []string { return []string{fmt.Sprintf("-T:%d", s), f} }},
+	{name: "z3-new/ematch", bin: "z3-new", args: func(f string, s int) []string {
+		return []string{fmt.Sprintf("-T:%d", s), "smt.auto_config=false", "smt.mbqi=false", f}
+	}},
 	{name: "cvc5", bin: "cvc5", args: func(f string, s int) []string {
 		return []string{fmt.Sprintf("--tlimit=%d", s*1000), "--full-saturate-quant", f}
 	}},
@@ -47,7 +50,15 @@ func runSolver(ctx context.Context, sp solverSpec, file string, secs int) (strin
 	_ = cmd.Run()
 	el := time.Since(t0).Seconds()
 	text := out.String()
-	first := strings.TrimSpace(strings.SplitN(text, "\n", 2)[0])
+	first := ""
+	for _, l := range strings.Split(text, "\n") {
+		l = strings.TrimSpace(l)
+		if l == "" || strings.HasPrefix(l, "WARNING") {
+			continue
+		}
+		first = l
+		break
+	}
 	switch first {
 	case "unsat", "sat", "unknown":
 		return first, text, el
@@ -142,6 +153,12 @@ func solveOne(file string, cfg solveCfg, cover bool) (res, solver string, secs f
 		// definite opposite answer
 		if !cfg.confirm {
 			return r, solvers[0].name, time.Since(t0).Seconds(), text
+		}
+	}
+	if !cfg.confirm && !cover {
+		// stage 1b: pure E-matching configuration, cheap and often decisive for quantified goals
+		if r2, text2, _ := runSolver(context.Background(), solvers[2], file, cfg.fastSecs+2); r2 == "unsat" || r2 == "sat" {
+			return r2, solvers[2].name, time.Since(t0).Seconds(), text2
 		}
 	}
 	firstRes, firstSolver := r, solvers[0].name
